@@ -105,12 +105,14 @@ def plan(chk):
                 dict(assign="round_robin", nfiles=3, gaps="foreign"), dict(assign="interleaved2", nfiles=4, gaps="random", file_order="shuffled"),
                 dict(assign="contiguous", nfiles=2, gaps="unindexed", sparse=True), dict(assign="single", gaps="random", sparse=True, file_order="desc"),
                 # files as Bitcoin Core writes them: the first block's magic is the first thing in the file
-                dict(assign="contiguous", nfiles=2, gaps="none"), dict(assign="round_robin", nfiles=3, gaps="none", file_order="shuffled")]
+                dict(assign="contiguous", nfiles=2, gaps="none"), dict(assign="round_robin", nfiles=3, gaps="none", file_order="shuffled"),
+                # blk files that are symbolic links into another directory (xor.dat stays in the data directory)
+                dict(assign="contiguous", nfiles=3, gaps="zeros", symlinks=True), dict(assign="random", nfiles=2, gaps="none", symlinks=True)]
     for ln in lens:
         for cls in ("random", "zero", "ff") + (("onebit", "zeroprefix", "zerosuffix", "zeromiddle", "magic") if chk.thorough or ln in (4, 8, 64)
                                                else (("zeroprefix", "zeromiddle", "magic", "zerosuffix")[ln % 4],)):
             n += 1
-            L = lay_pool[n % len(lay_pool)] if cls not in ("zeroprefix", "magic") or n % 2 else lay_pool[-1 - (n // 2) % 2]
+            L = lay_pool[n % len(lay_pool)] if cls not in ("zeroprefix", "magic") or n % 2 else lay_pool[-3 - (n // 2) % 2]
             specs.append(dict(case="case", coin=COIN_NAMES[n % 8], chain_seed=chk.seed * 100 + n % 5, n=n, keylen=ln, keycls=cls, layout=L,
                               also=("unspentcsvdump" if n % 4 == 0 else ("balances" if n % 4 == 2 else None)),
                               profile="debug" if n % 7 == 0 else "release"))
